@@ -188,6 +188,10 @@ pub mod p256 {
         }
         // SEC1 decoding accepts the compressed form produced by to_bytes (and the uncompressed one)
         pub uninterp spec fn sec1_decodes(bytes: Seq<u8>, k: VerifyingKey) -> bool;
+        pub axiom fn ax_sec1_function(bytes: Seq<u8>, a: VerifyingKey, b: VerifyingKey)
+            ensures sec1_decodes(bytes, a) && sec1_decodes(bytes, b) ==> a == b;
+        pub axiom fn ax_sec1_total(k: VerifyingKey)
+            ensures sec1_decodes(vk_bytes(k), k);
         pub broadcast axiom fn ax_sec1_compressed(bytes: Seq<u8>, k: VerifyingKey)
             ensures #[trigger] sec1_decodes(bytes, k) && bytes.len() == 33 ==> vk_bytes(k) == bytes;
         impl SigningKey {
